@@ -110,12 +110,20 @@ def aesOk : Bool :=
 /-- All known-answer tests pass. -/
 def selfTest : Bool := md5Ok && sha1Ok && desOk && aesOk
 
-/-- The RFC 1321 / FIPS 180 "one million `a`" vectors (heavy under the interpreter, so
-not part of `selfTest`). -/
-def millionATest : Bool :=
-  let m := List.replicate 1000000 (0x61 : UInt8)
-  hex (md5 m) == "7707d6ae4e027c70eea2a935c2296f21"
-    && hex (sha1 m) == "34aa973cd4c4daa4f61eeb2bdbad27316534016f"
+/-! The "one million `a`" vectors are heavy under the interpreter (`#eval`: about 2.5 s
+for MD5 and 5 s for SHA-1; natively compiled: about 40 ms each), so they are not part of
+`selfTest`. -/
+
+def millionA : List UInt8 := List.replicate 1000000 0x61
+
+/-- MD5 of 1,000,000 × `a` (RFC 1321 test suite extension). -/
+def md5MillionA : Bool := hex (md5 millionA) == "7707d6ae4e027c70eea2a935c2296f21"
+
+/-- SHA-1 of 1,000,000 × `a` (FIPS 180 example). -/
+def sha1MillionA : Bool := hex (sha1 millionA) == "34aa973cd4c4daa4f61eeb2bdbad27316534016f"
+
+/-- `selfTest` plus the heavy vectors; intended for compiled code. -/
+def selfTestFull : Bool := selfTest && md5MillionA && sha1MillionA
 
 end GufoSnmp.Crypto
 
@@ -125,3 +133,8 @@ end GufoSnmp.Crypto
 -- Build-time guard: elaboration of this file fails if any vector mismatches.
 #eval show IO Unit from
   if GufoSnmp.Crypto.selfTest then pure () else throw (IO.userError "crypto self test failed")
+
+-- Heavy vector, kept out of `selfTest`; costs about 2.5 s of build time.
+-- (`sha1MillionA` is not evaluated here; `CryptoBench.lean` / `crosscheck.py` cover it.)
+#eval show IO Unit from
+  if GufoSnmp.Crypto.md5MillionA then pure () else throw (IO.userError "MD5 million-a vector failed")
